@@ -461,7 +461,13 @@ func discharge(groups []*Group, workDir string, timeout int, confirm bool, worke
 		}
 		wg.Wait()
 		// third pass: what is still undecided, one query at a time with four times the limit
+		// (only when a handful is left: many undecided queries are not a load blip, and retrying them one by one
+		// would take hours)
 		for _, sb := range undecided {
+			if len(undecided) > 6 {
+				record(sb, "unknown", "", "undecided within the limit (not retried: too many undecided path queries)", 0)
+				continue
+			}
 			v, s, out, t, _, _ := race2(sb.query, sb.file, sb.fileB, timeout*4, false)
 			record(sb, v, s+" (retried alone)", out, t)
 		}
